@@ -5,7 +5,8 @@ word into [0,1]; sample_discrete is the inverse-CDF choice (threshold U*Lambda f
 running sum over data[0..i], result i-1); array_sum sums all `length` entries.
 R5.2 loop wiring (all four stochastic simulators): in every iteration path the stochastic
 propensities are computed from the current state and time before Lambda; Lambda is the sum of
-that buffer over all reactions; the waiting time is drawn with that Lambda; the reaction is drawn
+that buffer over all reactions; the waiting time is drawn with that Lambda, and it is drawn on every path on which Lambda > 0 is
+possible (a state is treated as absorbing only when Lambda == 0 exactly); the reaction is drawn
 from the same buffer and Lambda with no intervening write; the recording loop precedes the state
 update; a state update only happens with current_time equal to the event time sampled in this
 iteration.
@@ -178,7 +179,7 @@ def check_loop(ctx, key):
         raise AnalysisError('%s: recording loop not found' % key)
     rec = rec_loops[0]
     pths = sl.iteration_paths()
-    probs = {'order': [], 'lambda': [], 'sample': [], 'record': [], 'time': [], 'wait': []}
+    probs = {'order': [], 'lambda': [], 'sample': [], 'record': [], 'time': [], 'wait': [], 'skip': []}
     fired = 0
     for p in pths:
         ev = p.events
@@ -218,6 +219,12 @@ def check_loop(ctx, key):
             if e.kind == 'stmt' and j > i_lam >= 0 and isinstance(e.node, (ast.Assign, ast.AugAssign)) and \
                     src((e.node.targets[0] if isinstance(e.node, ast.Assign) else e.node.target)) == 'Lambda':
                 probs['sample'].append((p, 'Lambda reassigned before sampling'))
+        if i_exp < 0 and i_lam >= 0:
+            # an iteration that draws no waiting time treats the state as unable to react: only sound when Lambda == 0 exactly
+            snap = [e for e in ev[i_lam + 1:] if e.state is not None]
+            rel = simloop.lambda_rel(snap[-1]) if snap else frozenset('=>')
+            if rel != frozenset('='):
+                probs['skip'].append((p, 'no waiting time is drawn although Lambda > 0 is possible (Lambda vs 0: %s)' % ''.join(sorted(rel))))
         if i_exp >= 0:
             c = paths.stmt_calls(ev[i_exp].node, 'exponential_rv')[0]
             st = ev[i_exp].node
@@ -258,6 +265,8 @@ def check_loop(ctx, key):
     ctx.ob('R5.2-lambda', key, not probs['lambda'], sl.where, 'Lambda is the sum of the freshly computed buffer over all reactions', fmt(probs['lambda']))
     ctx.ob('R5.2-waiting-time', key, not probs['wait'] and fired > 0, sl.where,
            'the event time is current_time + exponential_rv(Lambda) with that Lambda', fmt(probs['wait']))
+    ctx.ob('R5.2-no-skip', key, not probs['skip'], sl.where,
+           'an iteration draws no waiting time only when the total propensity is exactly zero', fmt(probs['skip']))
     ctx.ob('R5.2-choice', key, not probs['sample'] and fired > 0, sl.where,
            'the reaction is drawn from the same buffer and Lambda, nothing written in between', fmt(probs['sample']))
     ctx.ob('R5.2-record-before-update', key, not probs['record'], sl.where,
